@@ -595,7 +595,7 @@ async fn worker(cases: Arc<Vec<CcCase>>, next: Arc<AtomicUsize>, out: Arc<Mutex<
     loop {
         {
             let g = out.lock().unwrap();
-            if g.machinery.is_some() || g.complaints.len() >= 6 {
+            if g.machinery.is_some() || g.complaints.len() >= 6 || g.complaints.iter().any(|c| c.0.contains("liveness") || c.0.contains("runaway")) {
                 break;
             }
         }
